@@ -162,15 +162,20 @@ theorem writeTripleQuoted_good (c : Ctx) (s : Str) (unq tri : Bool) (d : CU) (wi
   · exact good_ok ⟨rfl, rfl⟩
   · rename_i hlen; exfalso; apply hlen; simp; omega
 
-/-- `write_char` on a value (text fields allowed) never fails in CIF 2.0 mode -/
-theorem writeChar_value_good (c : Ctx) (s : Str) (q : Bool) (h2 : c.isCif1 = false) (wit : Prop) :
+/-- `write_char` on a value (text fields allowed) succeeds whenever the mode does not refuse it: no character outside the
+    CIF 1.1 set in CIF 1.1 mode, and no text field containing `<LF>;` in CIF 1.1 mode -/
+theorem writeChar_value_good_gen (c : Ctx) (s : Str) (q : Bool) (hv : ¬(c.isCif1 = true ∧ validate11 s = false))
+    (hr : (analyze s (!q) (!c.isCif1) LINE).delimLength = 2 →
+      ¬((analyze s (!q) (!c.isCif1) LINE).containsTextDelim = true ∧ c.isCif1 = true)) (wit : Prop) :
     Good c (writeChar c s q true) wit := by
-  have hv : ¬(c.isCif1 = true ∧ validate11 s = false) := by simp [h2]
   rcases Lemmas.WriterChar.delimLength_cases s (!q) (!c.isCif1) LINE with d | d | d | d
   · rw [Lemmas.WriterChar.writeChar_delim0 c s q true hv d]; exact writeUnquoted_good _ _ _ _
   · rw [Lemmas.WriterChar.writeChar_delim1 c s q true hv d]; exact writeQuoted_good _ _ _ _ _
   · have hr : ¬((true : Bool) = false ∨ ((analyze s (!q) (!c.isCif1) LINE).containsTextDelim = true ∧ c.isCif1 = true)) := by
-      simp [h2]
+      intro h
+      rcases h with h | h
+      · cases h
+      · exact hr d h
     rw [Lemmas.WriterChar.writeChar_delim2 c s q true hv d hr]
     have hflags := C02_flags_semis s _ (Lemmas.WriterAnalysis.maxSemiRun_zero s (!q) (!c.isCif1) LINE)
     have hex : ∃ body, textBody s (Lemmas.WriterChar.charFlags (analyze s (!q) (!c.isCif1) LINE)).1
@@ -186,6 +191,11 @@ theorem writeChar_value_good (c : Ctx) (s : Str) (q : Bool) (h2 : c.isCif1 = fal
     simp only [writeText, hb]
     exact good_ok ⟨rfl, rfl⟩
   · rw [Lemmas.WriterChar.writeChar_delim3 c s q true hv d]; exact writeTripleQuoted_good _ _ _ _ _ _
+
+/-- `write_char` on a value (text fields allowed) never fails in CIF 2.0 mode -/
+theorem writeChar_value_good (c : Ctx) (s : Str) (q : Bool) (h2 : c.isCif1 = false) (wit : Prop) :
+    Good c (writeChar c s q true) wit :=
+  writeChar_value_good_gen c s q (by simp [h2]) (by simp [h2]) wit
 
 /-- `write_char` on a table key (text fields not allowed): success or CIF_DISALLOWED_VALUE -/
 theorem writeChar_key_good (c : Ctx) (k : Str) (h2 : c.isCif1 = false) : Good c (writeChar c k true false) True := by
@@ -204,15 +214,17 @@ theorem countChar32_pos : ∀ (t : Str), t ≠ [] → 0 < countChar32 t := by
   | [_] => simp [countChar32]
   | a :: b :: r => simp only [countChar32]; split <;> omega
 
-theorem writeNumb_good (c : Ctx) (t : Str) (q : Bool) (h2 : c.isCif1 = false) (ht : t ≠ []) (wit : Prop) :
+theorem writeNumb_good_gen (c : Ctx) (t : Str) (q : Bool) (ht : t ≠ []) (wit : Prop)
+    (hq : q = true → Good c (writeChar c t true true) wit)
+    (hl : q = false → t.length > LINE → Good c (writeChar c t false true) wit) :
     Good c (writeNumb c t q) wit := by
   unfold writeNumb
   cases q with
-  | true => exact writeChar_value_good c t true h2 wit
+  | true => exact hq rfl
   | false =>
     simp only [Bool.false_eq_true, ↓reduceIte]
     by_cases hlong : t.length > LINE
-    · rw [if_pos hlong]; exact writeChar_value_good c t false h2 wit
+    · rw [if_pos hlong]; exact hl rfl hlong
     rw [if_neg hlong]
     have hpos := countChar32_pos t ht
     cases hw : writeULiteral c t none true with
@@ -241,10 +253,15 @@ theorem writeNumb_good (c : Ctx) (t : Str) (q : Bool) (h2 : c.isCif1 = false) (h
       simp only [hne, Bool.false_eq_true, ↓reduceIte]
       exact good_ok (writeULiteral_same c t none true (o, c') hw)
 
+theorem writeNumb_good (c : Ctx) (t : Str) (q : Bool) (h2 : c.isCif1 = false) (ht : t ≠ []) (wit : Prop) :
+    Good c (writeNumb c t q) wit :=
+  writeNumb_good_gen c t q ht wit (fun _ => writeChar_value_good c t true h2 wit) (fun _ _ => writeChar_value_good c t false h2 wit)
+
 /-- a data name that `write_item` can print: at least two units, at most a line of characters -/
 def nameOk (n : Str) : Prop := 2 ≤ n.length ∧ countChar32 n ≤ LINE
 
-theorem writeItemHead_good (c : Ctx) (n : Str) (h2 : c.isCif1 = false) (hn : c.writeItemNames = true → nameOk n) (wit : Prop) :
+theorem writeItemHead_good_gen (c : Ctx) (n : Str) (hv : c.writeItemNames = true → ¬(c.isCif1 = true ∧ validate11 n = false))
+    (hn : c.writeItemNames = true → nameOk n) (wit : Prop) :
     Good c (writeItemHead c n) wit := by
   unfold writeItemHead
   apply good_andThen (c := c) (wit := wit)
@@ -252,7 +269,8 @@ theorem writeItemHead_good (c : Ctx) (n : Str) (h2 : c.isCif1 = false) (hn : c.w
     | false => simp only [Bool.false_eq_true, ↓reduceIte]; exact good_ok (Same.refl c)
     | true =>
       have hok := hn hw
-      simp only [↓reduceIte, h2, Bool.false_eq_true, false_and]
+      have hv' := hv hw
+      simp only [↓reduceIte, hv']
       -- the name is printed at the beginning of a line
       have key : ∀ (c1 : Ctx) (o1 : Str), Same c c1 → c1.lastColumn = 0 →
           Good c (match writeULiteral c1 n none false with
@@ -280,6 +298,10 @@ theorem writeItemHead_good (c : Ctx) (n : Str) (h2 : c.isCif1 = false) (hn : c.w
     split
     · exact good_ok (ensureSpaced_same c1)
     · exact good_ok (Same.refl c1)
+
+theorem writeItemHead_good (c : Ctx) (n : Str) (h2 : c.isCif1 = false) (hn : c.writeItemNames = true → nameOk n) (wit : Prop) :
+    Good c (writeItemHead c n) wit :=
+  writeItemHead_good_gen c n (fun _ => by simp [h2]) hn wit
 
 /-! ### values -/
 
